@@ -94,6 +94,7 @@ impl WoodiesCCI {
 //@end
 //@extract src/indicators/woodies_cci.rs impl[IndicatorConfig for WoodiesCCI]::init pub
 //@sig pub fn init<T: OHLCV>(self, candle: &T) -> (r: Result<WoodiesCCIInstance, Error>)
+	requires (self.s1_lag as int) <= isize::MAX as int
 	ensures
 		!self.valid() ==> r is Err,
 		r is Ok ==> r->Ok_0.inv() && r->Ok_0.cfg == self,
@@ -115,7 +116,8 @@ pub open spec fn woodies_step(pre: &WoodiesCCIInstance, src: ValueType, post: &W
 }
 impl WoodiesCCIInstance {
 	// the bar counter is an isize: the contract covers fewer than isize::MAX bars on one side of zero
-	pub open spec fn inv(&self) -> bool { self.cfg.valid() && self.turbo.inv() && self.trend.inv() && self.s1_cross.inv() && -(isize::MAX as int) + 1 < self.s1_count as int && (self.s1_count as int) < isize::MAX as int - 1 }
+	// (s1_lag is compared as an isize: lags above isize::MAX exist only under period_type_u64)
+	pub open spec fn inv(&self) -> bool { self.cfg.valid() && (self.cfg.s1_lag as int) <= isize::MAX as int && self.turbo.inv() && self.trend.inv() && self.s1_cross.inv() && -(isize::MAX as int) + 1 < self.s1_count as int && (self.s1_count as int) < isize::MAX as int - 1 }
 //@extract src/indicators/woodies_cci.rs impl[IndicatorInstance for WoodiesCCIInstance]::next pub into=action
 	requires old(self).inv()
 	ensures final(self).cfg == old(self).cfg, final(self).turbo.inv() && final(self).trend.inv() && final(self).s1_cross.inv(),
